@@ -71,6 +71,13 @@ type C17Scenario struct {
 	Log        []C17Ev   `json:"log"`
 	FailAt     int       `json:"fail_at"` // the k-th upcaster application of the replay fails (-1: none)
 	ErrHandler bool      `json:"err_handler"`
+	BySetter   bool      `json:"by_setter,omitempty"`  // error handler installed with SetUpcastErrorHandler after New
+	ByOption   bool      `json:"by_option,omitempty"`  // raw upcasters registered with the WithUpcast option instead of RegisterUpcastFunc
+	StoreLast  bool      `json:"store_last,omitempty"` // WithStore is the last option
+	// ClearFirst: the registry has a history before the upcasters under test are registered: a decoy upcaster
+	// is registered and then removed with ClearUpcasts (1) or ClearUpcastsForType (2). Neither may cost the bus
+	// its error handler or change what the later registrations do.
+	ClearFirst int `json:"clear_first,omitempty"`
 	Subscribe  bool      `json:"subscribe,omitempty"` // also check SubscribeWithReplay[UC]
 	Store      StoreCfg  `json:"store"`
 	// ClearDuring: another task calls ClearUpcasts while the replay runs. Each event must then be seen
@@ -102,9 +109,19 @@ func genC17(rt *rapid.T) core.Scenario {
 		}
 		sc.Edges = append(sc.Edges, C17Edge{From: from, To: to})
 	}
+	// long chains: one linear chain R0 -> R1 -> ... -> RL, far longer than anything a suite would write down
+	maxType, maxFail := 6, 10
+	if rapid.IntRange(0, 4).Draw(rt, "long") == 4 {
+		L := rapid.IntRange(8, 40).Draw(rt, "chainLen")
+		sc.Edges = nil
+		for i := 0; i < L; i++ {
+			sc.Edges = append(sc.Edges, C17Edge{From: i, To: i + 1})
+		}
+		maxType, maxFail = L/2, 3*L
+	}
 	nl := rapid.IntRange(1, 6).Draw(rt, "nLog")
 	for i := 0; i < nl; i++ {
-		ev := C17Ev{Type: rapid.IntRange(0, 6).Draw(rt, "evType"), V: rapid.IntRange(0, 50).Draw(rt, "v")}
+		ev := C17Ev{Type: rapid.IntRange(0, maxType).Draw(rt, "evType"), V: rapid.IntRange(0, 50).Draw(rt, "v")}
 		if sc.Typed > 0 && rapid.IntRange(0, 2).Draw(rt, "typedEv") == 2 {
 			ev.Type = rapid.SampledFrom([]int{100, 100, 101, 102}).Draw(rt, "typedType")
 			ev.Bad = rapid.IntRange(0, 4).Draw(rt, "bad") == 4
@@ -112,9 +129,15 @@ func genC17(rt *rapid.T) core.Scenario {
 		sc.Log = append(sc.Log, ev)
 	}
 	if rapid.IntRange(0, 1).Draw(rt, "fail") == 1 {
-		sc.FailAt = rapid.IntRange(0, 10).Draw(rt, "failAt")
+		sc.FailAt = rapid.IntRange(0, maxFail).Draw(rt, "failAt")
 	}
 	sc.ErrHandler = rapid.IntRange(0, 3).Draw(rt, "errHandler") > 0
+	sc.BySetter = sc.ErrHandler && rapid.IntRange(0, 2).Draw(rt, "bySetter") == 2
+	sc.ByOption = rapid.IntRange(0, 2).Draw(rt, "byOption") == 2
+	sc.StoreLast = rapid.IntRange(0, 2).Draw(rt, "storeLast") == 2
+	if !sc.ByOption {
+		sc.ClearFirst = rapid.SampledFrom([]int{0, 0, 1, 2}).Draw(rt, "clearFirst")
+	}
 	sc.Subscribe = sc.Typed == 2 && rapid.Bool().Draw(rt, "subscribe")
 	sc.Store = StoreCfg{Kind: rapid.SampledFrom([]string{"mem", "mem", "mem", "sqlite"}).Draw(rt, "store")}
 	if rapid.IntRange(0, 3).Draw(rt, "clearDuring") == 3 {
@@ -180,13 +203,16 @@ func (sc *C17Scenario) Execute(t *testing.T) *core.Outcome {
 		applications := 0
 		failed := 0
 		var errCalls []string
-		opts := []eventbus.Option{eventbus.WithStore(store)}
-		if sc.ErrHandler {
-			opts = append(opts, eventbus.WithUpcastErrorHandler(func(typ string, data json.RawMessage, err error) {
-				errCalls = append(errCalls, typ)
-			}))
+		var opts []eventbus.Option
+		if !sc.StoreLast {
+			opts = append(opts, eventbus.WithStore(store))
 		}
-		bus := eventbus.New(opts...)
+		errHandler := func(typ string, data json.RawMessage, err error) {
+			errCalls = append(errCalls, typ)
+		}
+		if sc.ErrHandler && !sc.BySetter {
+			opts = append(opts, eventbus.WithUpcastErrorHandler(errHandler))
+		}
 		tick := func() error { // called at the start of every upcaster application
 			k := applications
 			applications++
@@ -196,18 +222,42 @@ func (sc *C17Scenario) Execute(t *testing.T) *core.Outcome {
 			}
 			return nil
 		}
-		for i, e := range sc.Edges {
-			i, e := i, e
-			if err := eventbus.RegisterUpcastFunc(bus, c17Name(e.From), c17Name(e.To), func(d json.RawMessage) (json.RawMessage, string, error) {
+		rawUpcaster := func(i int, e C17Edge) eventbus.UpcastFunc {
+			return func(d json.RawMessage) (json.RawMessage, string, error) {
 				simrt.Yield(siteUpcaster)
 				if err := tick(); err != nil {
 					return nil, "", err
 				}
 				nd, nt, err := c17Step(i, e, d)
 				return nd, nt, err
-			}); err != nil {
-				out.HarnessErr = "register: " + err.Error()
-				return
+			}
+		}
+		if sc.ByOption {
+			for i, e := range sc.Edges {
+				opts = append(opts, eventbus.WithUpcast(c17Name(e.From), c17Name(e.To), rawUpcaster(i, e)))
+			}
+		}
+		if sc.StoreLast {
+			opts = append(opts, eventbus.WithStore(store))
+		}
+		bus := eventbus.New(opts...)
+		if sc.ErrHandler && sc.BySetter {
+			bus.SetUpcastErrorHandler(errHandler)
+		}
+		if sc.ClearFirst > 0 {
+			eventbus.RegisterUpcastFunc(bus, "decoy.a", "decoy.b", func(d json.RawMessage) (json.RawMessage, string, error) { return d, "decoy.b", nil })
+			if sc.ClearFirst == 1 {
+				bus.ClearUpcasts()
+			} else {
+				bus.ClearUpcastsForType("decoy.a")
+			}
+		}
+		if !sc.ByOption {
+			for i, e := range sc.Edges {
+				if err := eventbus.RegisterUpcastFunc(bus, c17Name(e.From), c17Name(e.To), rawUpcaster(i, e)); err != nil {
+					out.HarnessErr = "register: " + err.Error()
+					return
+				}
 			}
 		}
 		// typed upcasters cannot fail by injection (their function has no error result); they fail on undecodable data
@@ -244,7 +294,7 @@ func (sc *C17Scenario) Execute(t *testing.T) *core.Outcome {
 		for _, se := range stored {
 			curT, curD := se.Type, []byte(se.Data)
 			failedHere := false
-			for steps := 0; steps < 50; steps++ {
+			for steps := 0; steps < 500; steps++ {
 				idx := -1
 				for i, e := range sc.Edges {
 					if c17Name(e.From) == curT {
@@ -363,7 +413,7 @@ func (sc *C17Scenario) Execute(t *testing.T) *core.Outcome {
 				_ = i
 				curT, curD := se.Type, []byte(se.Data)
 				ok := true
-				for steps := 0; steps < 50 && ok; steps++ {
+				for steps := 0; steps < 500 && ok; steps++ {
 					idx := -1
 					for j, e := range sc.Edges {
 						if c17Name(e.From) == curT {
